@@ -17,12 +17,12 @@ LEVEL_TEXT["C18"] = (
     "Tie: bit-exact correspondence (gccphat tau*fs to 1e-9 sample) of the hand-written models, run with the C01 model of the library's own FFT plans, on all five entry points. "
     "Measured only (statistical hypotheses of the property, oracle on the implementation): that a white signal of >= 128 samples puts the correlation maximum at the true lag for |d| <= len/4 "
     "with noise <= -30 dB, half-sample accuracy of gccphat, score within 0.05 of 1, that Zadoff-Chu / chirp / PN preambles cross the threshold at alignment only, no false detection."
-    " REGENERATED TIE (Props/C18Gen): the preamble detector — PreambleDetectorImpl constructor, CDelay, the whole process (frame guard, FFT correlation filter and moving power through the generated FftFilter / MAFilter code, sample loop with early return as a first-hit search) and reset — is translated from the C++ on every run and proved equal to Model/Detect (detectorCtor_eq, detectorProcess_eq for every state of the invariant domain and every frame, detectorReset_eq); the first-call theorems and T18.4 are restated for the generated code (detector_gen_first_call_total, detector_gen_process_spec). peakloc, finddelay, gccphat stay hand-modelled. "
+    " REGENERATED TIE (Props/C18Gen): the preamble detector — PreambleDetectorImpl constructor, CDelay, the whole process (frame guard, FFT correlation filter and moving power through the generated FftFilter / MAFilter code, sample loop with early return as a first-hit search) and reset — is translated from the C++ on every run and proved equal to Model/Detect (detectorCtor_eq, detectorProcess_eq for every state of the invariant domain and every frame, detectorReset_eq); the first-call theorems and T18.4 are restated for the generated code (detector_gen_first_call_total, detector_gen_process_spec). (Props/C18GenPeak): BOTH overloads of peakloc (int index arithmetic (idx-1+n)%n / (idx+1)%n as truncated remainders, the 2*x[mk] left-oriented cmplx_t template, real(cmplx_t) of lib/math.cpp) are translated on every run and proved equal to Model/Detect for every array, every index inside it and both cyclic settings (peaklocR_gen_eq, peaklocC_gen_eq); T18.2 is restated for the generated code (peakloc_vertex_gen, peakloc_noncyclic_edge_gen). finddelay and gccphat stay hand-modelled. "
 )
 
 PROPS["C18"] = {
-    "gen": ["SmallFft", "Consts", "Cmplx", "StepsBase", "StepsArray", "StepsDyn", "CtorDyn", "StepsFftFilter", "StepsDetector"],
-    "lean_props": ["DspVerif.Props.C18", "DspVerif.Props.C18Total", "DspVerif.Props.C18Gen"],
+    "gen": ["SmallFft", "Consts", "Cmplx", "StepsBase", "StepsArray", "StepsDyn", "CtorDyn", "StepsFftFilter", "StepsDetector", "StepsPeakloc"],
+    "lean_props": ["DspVerif.Props.C18", "DspVerif.Props.C18Total", "DspVerif.Props.C18Gen", "DspVerif.Props.C18GenPeak"],
     "harness": [{"src": "c18.cpp", "cfg": "rel",
                  "tol": {"plR": (1e-13, 0.0), "plC": (1e-13, 0.0), "gcc": (1e-12, 1e-9), "gccm": (1e-12, 1e-9), "det": (1e-11, 0.0), "det2": (1e-11, 0.0)}}],
     "rule": "delayseq: every shift -N-2..N+2 for every N <= 9 (thorough 12), real and complex, + lengths 16..5000 with shifts 0, +-1, +-N/4, +-(N-1), +-N, +-(N+1), +-1e6, +-(2^31-1) and random; "
@@ -59,7 +59,7 @@ PROPS["C18"] = {
                  "reset() and rejected calls modelled for the correspondence run: det2 scripts on explicit or exactly regenerated streams of up to 2^18 samples) + "
                  "bit-exact differential correspondence on the real library (FFT parameters instantiated with the C01 plan model) + the property's own oracle (exact shift recovery, half-sample bound, long-double brute-force detector metric)",
     "level_note": "floating-point rounding is not modelled; the statistical content of the property (white signals of >= 128 samples peak at the true lag, PHAT interpolation offset below half a sample, preamble sidelobes below the threshold, "
-                  "score near 1, no false detection on noise) is hypothesis of the theorems and MEASURED by the oracle; the models are hand-written; the preamble detector model is proved equal to the REGENERATED constructor / process / reset (Props/C18Gen), peakloc / finddelay / gccphat are tied to the code by the correspondence run only; T18.3 / T18.4 take the transforms as parameters "
+                  "score near 1, no false detection on noise) is hypothesis of the theorems and MEASURED by the oracle; the models are hand-written; the preamble detector model is proved equal to the REGENERATED constructor / process / reset (Props/C18Gen) and the two peakloc models to the REGENERATED overloads (Props/C18GenPeak); finddelay / gccphat are tied to the code by the correspondence run only; T18.3 / T18.4 take the transforms as parameters "
                   "(fft = DFT is C01/C02; C07's circular-convolution hypothesis for the detector's correlation filter); after a report the C++ loop returns early, so the delay line misses the rest of that call (modelled; the property has one preamble per stream); "
                   "the complex overload of peakloc is not a parabola vertex (theorem) and is covered by correspondence only; "
                   "the detector is NOT scale-equivariant (eps() in pwx + eps() is absolute): below |x| ~ 1e-7 the score falls under 1 (0.557 at 1e-8) and above |x| ~ 4e7 exact silence next to the preamble can be reported "
